@@ -412,6 +412,10 @@ func genForest(n int, o cfgOpts) []entitySpec {
 		}
 		if chance(1, 4) {
 			cfg["alias"] = alias // explicit alias equal to the base name
+		} else if chance(1, 5) {
+			// an explicit alias that is not the file's base name: references use the alias, the artifact sits next to the file
+			cfg["alias"] = alias
+			ents[i].path = choose(dirs) + fmt.Sprintf("File-%d.v1", i) + ext
 		}
 	}
 	return ents
